@@ -24,6 +24,10 @@ func vLogger() logrus.FieldLogger { return logrus.New() }
 
 var vJobs = []string{"job1", "job2"}
 
+// vAllJobs: harness loops iterate over this fixed list instead of ranging over maps, so that the
+// harness itself does not fork on map-iteration order (the code under analysis still does).
+var vAllJobs = []string{"job1", "job2", "job-empty"}
+
 type vPre struct {
 	obj    *target.ScrapeStatus // the status object itself (identity must be kept across updates)
 	snap   target.ScrapeStatus  // its content before the step
@@ -176,13 +180,13 @@ func VTMStep(K int) {
 	}
 	// INV again (targets list and status agree)
 	n := 0
-	for _, ts := range info.Targets {
-		for _, tr := range ts {
+	for _, job := range vAllJobs {
+		for _, tr := range info.Targets[job] {
 			n++
 			zzv.Assert("C10.inv.targets", info.Status[tr.Hash] != nil && info.Status[tr.Hash].TargetState == tr.TargetState)
 		}
 	}
-	zzv.Assert("C10.inv.count", n == len(info.Status))
+	zzv.Assert("C10.inv.count", n == len(info.Status) && len(info.Targets) <= len(vAllJobs))
 	// the load report
 	head := zzv.Int64("prom.head")
 	zzv.Assume(0 <= head && head <= vMaxSeries)
@@ -192,9 +196,11 @@ func VTMStep(K int) {
 	zzv.Assert("C10.runtime.type", ok && rt != nil)
 	if ok && rt != nil {
 		var sumS, sumT int64
-		for _, st := range info.Status {
-			sumS += st.Series
-			sumT += st.TotalSeries
+		for h := uint64(1); h <= uint64(K); h++ {
+			if st := info.Status[h]; st != nil {
+				sumS += st.Series
+				sumT += st.TotalSeries
+			}
 		}
 		zzv.Assert("C14.runtime.process", rt.ProcessSeries == sumT)
 		zzv.Assert("C14.runtime.head", rt.HeadSeries == zzv.IfInt64(head < sumS, sumS, head))
@@ -234,8 +240,8 @@ func VTMRestart(K int) {
 func vAssertResumed(label string, K int, info TargetsInfo, want map[uint64]*vReq, idle *time.Time) {
 	zzv.Assert(label+".size", len(info.Status) == len(want))
 	count := 0
-	for job, ts := range info.Targets {
-		for _, tr := range ts {
+	for _, job := range vAllJobs {
+		for _, tr := range info.Targets[job] {
 			count++
 			w := want[tr.Hash]
 			zzv.Assert(label+".target", w != nil && vJobs[w.job] == job && tr.TargetState == w.state && tr.Series == w.series && tr.TotalSeries == w.total)
@@ -324,8 +330,8 @@ func vMatches(K int, info TargetsInfo, want map[uint64]*vReq, idle *time.Time) b
 	}
 	count := 0
 	ok := true
-	for job, ts := range info.Targets {
-		for _, tr := range ts {
+	for _, job := range vAllJobs {
+		for _, tr := range info.Targets[job] {
 			count++
 			w := want[tr.Hash]
 			if w == nil || vJobs[w.job] != job {
